@@ -197,6 +197,6 @@ def run(ctx):
     ctx.trusted += ["hand-written model lean/Dassh/Model/Mesh.lean tied to _map_asm2gap by differential correspondence (1e-11)"]
     ctx.assumptions += ["the theorems cover the overlap matrix and its two normalisations (non-negativity, rows sum to one, "
                         "column tiling, conservation, identity) and, for the executable fold of the split top corner, that every "
-                        "row of the merged map sums to one; conservation through the fold is covered by correspondence + oracle",
+                        "row of the merged map sums to one and the merged-length-weighted integral is conserved (c10_fold_conservative)",
                         "conservation through the corner fold is checked by the oracle also when the two halves of the top "
                         "corner differ (different neighbours on the first and last hex side)"]
